@@ -22,7 +22,7 @@
    Not proved (hence partial): that NO internal assertion of a multi-step coroutine can fire for any schedule (1301 is
    evaluated on every trace; two of the four assertion sites need an id-discipline invariant that is not proved);
    the wire layers (JSON / protobuf decoding) are the libraries'. *)
-From RV Require Import Mon MonC13 Valid Route Discipline SysInv PC13.
+From RV Require Import Mon MonC13 Valid Route Plug Discipline SysInv PC13.
 
 Theorem C13_front_contract :
   (forall q, req_wf_b q = true -> req_asserts q = true) /\
@@ -60,3 +60,16 @@ Proof. vm_compute. reflexivity. Qed.
 Example C13_asserts_replay_detects :
   asserts_mismatches [[CAssert (QClaimTask "t" 1 "w" (-1)) false; CAssert (QClaimTask "t" 1 "w" 0) false]] = [(0%nat, 0%nat, 0)].
 Proof. vm_compute. reflexivity. Qed.
+
+(* the transport worker of the http plugin (Model/Plug.v; family `plug`: hostile receiver data - unusable json, urls
+   that do not parse, unsupported schemes, refused connections, answers slower than the timeout, non-200 answers -
+   through the production worker): every hand-off ends in a reported outcome, and only a receiver that answered 200
+   counts as delivered; anything else is a failed hand-off, which C19_failed_is_retried turns into a retry *)
+Theorem C13_transport_reports_an_outcome : forall cls,
+    plug_expect cls <> PPanic /\ (plug_expect cls = PDelivered <-> cls = 0%Z).
+Proof.
+  intro cls. unfold plug_expect. destruct (cls =? 0)%Z eqn:E.
+  - apply Z.eqb_eq in E. split; [discriminate|]. split; intros; [exact E|reflexivity].
+  - apply Z.eqb_neq in E. split; [discriminate|]. split; intros H; [discriminate|contradiction].
+Qed.
+Print Assumptions C13_transport_reports_an_outcome.
